@@ -117,8 +117,70 @@ def gen_cases(ctx):
     return cases
 
 
+def twice_cases(ctx):
+    """the runner is used twice in one process (an embedding program, the runner's own tests): the second world's
+    layers carry the same dotted names as the first one's but are other objects with other hooks and bases; the
+    second run must bracket its tests with ITS layers' hooks"""
+    import copy
+    import json
+    import os
+    import shutil
+    import subprocess
+    from harness import common
+    rng = ctx.rng
+    cases = []
+    for i in range(4 if ctx.quick() else 60):
+        w1 = worlds.gen_world(rng, n_layers=rng.choice([2, 3, 4]), tests_per_layer=(1, 3),
+                              kinds=["pass", "fail", "skipDeco", "error"], p_fault=0.0, p_write=0.0)
+        w2 = copy.deepcopy(w1)
+        for k, l in enumerate(w2["layers"]):
+            if l["kind"] == "unit":
+                continue
+            # other hooks ...
+            if l["kind"] == "instance":
+                l["testSetUp"] = not l["testSetUp"]
+                l["testTearDown"] = rng.random() < 0.7
+            # ... and one more base, where that keeps the hierarchy legal
+            earlier = [j for j in range(k) if w2["layers"][j]["kind"] == "instance" and j not in worlds.closure(w2["layers"], k)]
+            if l["kind"] == "instance" and earlier and rng.random() < 0.7:
+                l["bases"] = l["bases"] + [rng.choice(earlier)]
+        o = {"verbose": 1}
+        d1 = os.path.join(ctx.tmp, "tw%04da" % i)
+        d2 = os.path.join(ctx.tmp, "tw%04db" % i)
+        worlds.materialize(w1, d1)
+        worlds.materialize(w2, d2)
+        runs = [{"dir": d, "args": worlds.cli_args(d, o)[2:], "trace": os.path.join(d, "trace.jsonl")} for d in (d1, d2)]
+        env = dict(os.environ)
+        env["PYTHONHASHSEED"] = "0"
+        p = subprocess.run([common.PY, os.path.join(common.VERIF, "harness", "twice_worker.py")],
+                           input=json.dumps({"runs": runs}).encode(), env=env, stdout=subprocess.PIPE,
+                           stderr=subprocess.PIPE, timeout=180)
+        c = cw.Case(w2, o, "second-run-in-process")
+        try:
+            res = json.loads(p.stdout.decode().strip().split("\n")[-1])["runs"]
+        except Exception:  # noqa: BLE001
+            ctx.drift("runner.twice", "worker failed: %s" % p.stderr.decode()[-400:], c.replay_obj())
+            shutil.rmtree(d1, ignore_errors=True)
+            shutil.rmtree(d2, ignore_errors=True)
+            continue
+        obs = worlds.Obs()
+        obs.stdout = res[1]["stdout"]
+        obs.exit = 1 if res[1]["failed"] else 0
+        obs.timeout = False
+        if res[1]["exc"]:
+            obs.stderr = "Traceback (most recent call last): " + res[1]["exc"]
+        worlds.load_trace(obs, runs[1]["trace"])
+        obs.parent_pid = next(iter(obs.procs), None)
+        c.obs = obs
+        cases.append(c)
+        shutil.rmtree(d1, ignore_errors=True)
+        shutil.rmtree(d2, ignore_errors=True)
+    cw.standard_check_after_real(ctx, cases, PROP, KINDS, "runner.hooks", monitor)
+
+
 def run(ctx):
     cw.standard_check(ctx, cw.corpus_cases(PROP) + gen_cases(ctx), PROP, KINDS, "runner.hooks", monitor)
+    twice_cases(ctx)
     proto_check(ctx)
 
 
